@@ -734,3 +734,107 @@ fn c14_tracker_alloc_path_n13() {
 fn c14_tracker_alloc_path_n16() {
     retry_case::<16>();
 }
+
+// ---- C14: allocate_helper_retry, the glue between the tracker and the allocators (native replay) ---
+// The whole function on a symbolic allocator does not close (c14_tracker_alloc_path_*), and with
+// two regions the candidate region becomes a symbolic Vec index (not closed in 1500 s).  Here the
+// database has ONE region whose allocator is a CONCRETE valid state (chosen to include "no block
+// of the requested order but a smaller one", "entirely free", "full", "mixed") while every tracker
+// bit and the requested order stay symbolic: the solver ranges over all tracker states consistent
+// with invariant T and all orders.  No stubs: a counterexample replays natively.
+
+/// concrete region states (16 pages, capacity 16): returns the leaf words per order
+fn conc_words(kind: u8) -> bh::Words {
+    let mut w: bh::Words = [[u64::MAX; 2]; bh::MAXO];
+    match kind {
+        // only the order-1 block of pages 2-3 is free
+        1 => w[1][0] = !(1u64 << 1),
+        // entirely free: one order-4 block
+        2 => w[4][0] = !1u64,
+        // full
+        3 => {}
+        // page 0 (order 0), pages 4-7 (order 2), pages 8-15 (order 3)
+        _ => {
+            w[0][0] = !1u64;
+            w[2][0] = !(1u64 << 1);
+            w[3][0] = !(1u64 << 1);
+        }
+    }
+    w
+}
+
+fn retry_glue_case<const K: u8>(lowest: bool) {
+    let a = bh::mk_alloc(16, 16, &conc_words(K));
+    let fa = bh::r_inv(&a, 16, 16);
+    assert!(fa.is_some(), "the concrete pre-state satisfies R");
+    let pre = fa.unwrap();
+    let tw: [u64; 5] = kani::any();
+    let tracker = RegionTracker::verif_raw(alloc::vec![
+        bmh::mk_padded(1, MAX_REGIONS_CAP, &[tw[0], u64::MAX, u64::MAX]),
+        bmh::mk_padded(1, MAX_REGIONS_CAP, &[tw[1], u64::MAX, u64::MAX]),
+        bmh::mk_padded(1, MAX_REGIONS_CAP, &[tw[2], u64::MAX, u64::MAX]),
+        bmh::mk_padded(1, MAX_REGIONS_CAP, &[tw[3], u64::MAX, u64::MAX]),
+        bmh::mk_padded(1, MAX_REGIONS_CAP, &[tw[4], u64::MAX, u64::MAX]),
+    ]);
+    kani::assume(t_inv(&tracker, pre, 16));
+    let mut state = InMemoryState {
+        header: hh::concrete_header(),
+        allocators: Some(Allocators {
+            region_tracker: tracker,
+            region_allocators: alloc::vec![a],
+        }),
+        read_from_secondary: false,
+    };
+    let order: u8 = kani::any();
+    kani::assume(order <= 4);
+    let r = match order {
+        0 => TransactionalMemory::allocate_helper_retry(&mut state, 0, lowest),
+        1 => TransactionalMemory::allocate_helper_retry(&mut state, 1, lowest),
+        2 => TransactionalMemory::allocate_helper_retry(&mut state, 2, lowest),
+        3 => TransactionalMemory::allocate_helper_retry(&mut state, 3, lowest),
+        _ => TransactionalMemory::allocate_helper_retry(&mut state, 4, lowest),
+    };
+    let al = state.allocators.as_ref().unwrap();
+    let pa = bh::r_inv(&al.region_allocators[0], 16, 16);
+    assert!(pa.is_some(), "R holds afterwards");
+    let post = pa.unwrap();
+    match r {
+        Ok(Some(p)) => {
+            assert!(p.region == 0 && p.page_order == order);
+            let bm = bh::block_mask(p.page_index, order);
+            assert!(pre & bm == bm && post == pre & !bm, "handed out exactly one entirely free block");
+            kani::cover!(true, "allocated");
+        }
+        Ok(None) => {
+            assert!(!bh::has_aligned_run(pre, 16, order), "refused only when the region has no aligned free block of that size");
+            assert!(post == pre, "refusal leaves the allocator unchanged");
+            kani::cover!(pre != 0, "refused although smaller space is free");
+        }
+        Err(_) => assert!(false),
+    }
+    assert!(t_inv(&al.region_tracker, post, 16), "a region that still contains a suitable free block is never reported full");
+    core::mem::forget(r);
+    core::mem::forget(state);
+}
+
+macro_rules! retry_glue {
+    ($name:ident, $k:literal, $lowest:literal) => {
+        #[kani::proof]
+        #[kani::unwind(20)]
+        fn $name() {
+            retry_glue_case::<$k>($lowest);
+        }
+    };
+}
+
+// @harness props=C14 tier=thorough timeout=3600 mem=32 replay=native optcover=smaller attempt=1
+// @desc (attempted: out of memory at 16 GB / 1250 s - the retry loop is unrolled to the global unwind bound and the tracker bitmaps' heights stop being constants) the real allocate_helper_retry on a one-region database whose allocator is a concrete valid state (as named: small = only an order-1 block free, free = entirely free, full, mixed = blocks of orders 0, 2 and 3 free) with ANY tracker state consistent with invariant T and ANY requested order: a block is handed out iff the region has an aligned free block of that order and it was entirely free; a refusal changes nothing; afterwards T still holds - a region that still contains a suitable free block (of any order) is never reported full, in particular a region that refused order k is marked full from k upwards and not below
+// @functions TransactionalMemory::allocate_helper_retry, InMemoryState::{get_region_mut,get_region_tracker_mut}, RegionTracker::{find_free,mark_full}, BuddyAllocator::{alloc,alloc_inner,alloc_lowest,highest_free_order}, BtreeBitmap::*
+// @bound one 16-page region (capacity 16) in the named concrete state; 5 tracked orders (the real tracker has 21) with the real 4-level bitmap shape; all tracker bits (subject to T) and the order arbitrary; allocation policy alloc (and alloc_lowest where named)
+// @assumes invariant T holds of the pre-state (the tracker never marks a region full at an order for which it has a free block)
+retry_glue!(c14_retry_glue_small, 1, false);
+retry_glue!(c14_retry_glue_free, 2, false);
+retry_glue!(c14_retry_glue_full, 3, false);
+retry_glue!(c14_retry_glue_mixed, 4, false);
+retry_glue!(c14_retry_glue_small_lowest, 1, true);
+retry_glue!(c14_retry_glue_mixed_lowest, 4, true);
